@@ -398,3 +398,59 @@ impl Drop for TaskIterator<'_> {
         }
     }
 }
+/// Verification hook: a task set on its own, with a parent waker that counts
+/// the notifications it receives.
+#[cfg(nexosim_verif)]
+pub mod verif {
+    use std::sync::atomic::{AtomicUsize, Ordering};
+    use std::sync::Arc;
+
+    use diatomic_waker::WakeSink;
+    use futures_task::{waker, ArcWake};
+
+    use super::TaskSet;
+
+    struct Counter(AtomicUsize);
+    impl ArcWake for Counter {
+        fn wake_by_ref(arc_self: &Arc<Self>) {
+            arc_self.0.fetch_add(1, Ordering::SeqCst);
+        }
+    }
+
+    pub struct VTaskSet {
+        set: TaskSet,
+        sink: WakeSink,
+        counter: Arc<Counter>,
+    }
+
+    impl VTaskSet {
+        pub fn new(len: usize) -> Self {
+            let sink = WakeSink::new();
+            let set = TaskSet::with_len(sink.source(), len);
+            Self {
+                set,
+                sink,
+                counter: Arc::new(Counter(AtomicUsize::new(0))),
+            }
+        }
+        /// Wakes sub-task `idx` through its waker.
+        pub fn wake(&self, idx: usize) {
+            self.set.waker_of(idx).wake_by_ref();
+        }
+        /// Registers the parent waker (as the owner's `poll` does), then
+        /// `take_scheduled(notify_count)`; the scheduled indices are drained in
+        /// iteration order.
+        pub fn take(&mut self, notify_count: usize) -> Option<Vec<usize>> {
+            self.sink.register(&waker(self.counter.clone()));
+            self.set.take_scheduled(notify_count).map(|it| it.collect())
+        }
+        pub fn has_scheduled(&self) -> bool {
+            self.set.has_scheduled()
+        }
+        /// Number of notifications the parent waker has received.
+        pub fn notifications(&self) -> usize {
+            self.counter.0.load(Ordering::SeqCst)
+        }
+    }
+}
+
